@@ -743,6 +743,8 @@ class _Pool1d(OpDef):
             if not self.is_max:
                 out.append({"N": 2, "C": 2, "L": Lin, "k": k, "s": s, "p": p, "d": d, "via": "F"})
         out.append({"N": 1, "C": 2, "L": 4, "k": 2, "s": None, "p": 0, "d": 1, "via": "F"})
+        out.append({"N": 2, "C": 2, "L": 2, "k": 2, "s": None, "p": 0, "d": 1, "via": "F"})     # arg-max offsets across batch and channel
+        out.append({"N": 2, "C": 1, "L": 3, "k": 2, "s": 1, "p": 0, "d": 1, "via": "M"})
         out.append({"N": 1, "C": 1, "L": 4, "k": 2, "s": None, "p": 0, "d": 1, "via": "M"})
         out.append({"N": 1, "C": 1, "L": 4, "k": 2, "s": 1, "p": 1, "d": 1, "via": "M"})
         return out
@@ -817,6 +819,8 @@ class _Pool2d(OpDef):
             if not self.is_max and idx % 3 == 0:
                 out.append(dict(base, N=2, C=2, via="F"))
         out.append({"H": 2, "W": 4, "k": 2, "s": None, "p": 0, "d": 1, "N": 1, "C": 1, "via": "F"})
+        out.append({"H": 1, "W": 2, "k": [1, 2], "s": None, "p": 0, "d": 1, "N": 2, "C": 2, "via": "F"})     # batch and channel > 1
+        out.append({"H": 2, "W": 2, "k": [2, 1], "s": 1, "p": 0, "d": 1, "N": 2, "C": 1, "via": "M"})
         out.append({"H": 2, "W": 4, "k": [1, 2], "s": None, "p": 0, "d": 1, "N": 1, "C": 1, "via": "M"})
         out.append({"H": 1, "W": 2, "k": [1, 2], "s": None, "p": 0, "d": 1, "N": 1, "C": 2, "via": "M"})
         out.append({"H": 2, "W": 2, "k": 2, "s": 2, "p": 1, "d": 1, "N": 1, "C": 1, "via": "M"})
